@@ -1,39 +1,146 @@
 import BlockCiphers.Proofs.Rc5Spec
 import BlockCiphers.Proofs.SpeckKeys
-import BlockCiphers.Proofs.Rc5SpeckC01
+import BlockCiphers.Proofs.ThreefishSpec
+import BlockCiphers.Proofs.Threefish
 /-
-C10 — RC5, Speck, Threefish and GIFT-128 conform for every parameterisation.
-RC5 and Speck: full (`Impl = Spec` for all parameters).  Threefish, GIFT: added when their models are merged.
+C10 — RC5, Speck, Threefish and GIFT-128 conform for every parameterisation
+GENERATED statement file (tools/gen_thm.py): every theorem below restates, verbatim, a theorem of a Proofs/ module
+and is proved by applying it.  ONLY property theorems and non-vacuity examples live in Thm/.
+RC5, Speck, Threefish: full.  GIFT-128: added when Proofs/Gift* are merged.
 -/
-namespace BC.Thm.C10
+
+namespace BC.Rc5
 open BC
+/-- **C10 (RC5)**: for each of the five word types, every `r`, every key length `b` and key, every block:
+the constants are Rivest's, the expanded table is Rivest's `S`, and `encrypt_block`/`decrypt_block` are
+Rivest's encryption/decryption. -/
+theorem C10.rc5_computes_spec (w : Nat) (hw : w ∈ widths) (r b : Nat) (key : Bytes) (hb : key.length = b)
+    (blk : Bytes) :
+    Spec.Rc5.IsP w (P w).toNat ∧ Spec.Rc5.IsQ w (Q w).toNat ∧
+    (substituteKey w r b key).toList = Spec.Rc5.expand r b (P w) (Q w) key ∧
+    encryptBlock (substituteKey w r b key) r blk
+      = Spec.Rc5.encryptBytes (Spec.Rc5.expand r b (P w) (Q w) key) r blk ∧
+    decryptBlock (substituteKey w r b key) r blk
+      = Spec.Rc5.decryptBytes (Spec.Rc5.expand r b (P w) (Q w) key) r blk :=
+  _root_.BC.Rc5.rc5_computes_spec w hw r b key hb blk
+end BC.Rc5
 
-/-- RC5-w/r/b for the five word types, EVERY round count `r`, EVERY key length `b` (0 included) and key, every block:
-the constants are Rivest's `P_w = Odd((e−2)2^w)`, `Q_w = Odd((φ−1)2^w)`, the expanded table is Rivest's `S`, and
-encryption / decryption are Rivest's. -/
-theorem rc5_conforms (w : Nat) (hw : w ∈ Rc5.widths) (r b : Nat) (key : Bytes) (hb : key.length = b) (blk : Bytes) :
-    Spec.Rc5.IsP w (Rc5.P w).toNat ∧ Spec.Rc5.IsQ w (Rc5.Q w).toNat ∧
-    (Rc5.substituteKey w r b key).toList = Spec.Rc5.expand r b (Rc5.P w) (Rc5.Q w) key ∧
-    Rc5.encryptBlock (Rc5.substituteKey w r b key) r blk
-      = Spec.Rc5.encryptBytes (Spec.Rc5.expand r b (Rc5.P w) (Rc5.Q w) key) r blk ∧
-    Rc5.decryptBlock (Rc5.substituteKey w r b key) r blk
-      = Spec.Rc5.decryptBytes (Spec.Rc5.expand r b (Rc5.P w) (Rc5.Q w) key) r blk :=
-  Rc5.rc5_computes_spec w hw r b key hb blk
-
-example : (8 : Nat) ∈ Rc5.widths ∧ (128 : Nat) ∈ Rc5.widths := by decide
-
-/-- the ten Speck types are the ten rows of the Simon&Speck paper's parameter table, and for every key and block
-`encrypt_block` / `decrypt_block` after `KeyInit::new` are the paper's Speck with the paper's key schedule. -/
-theorem speck_conforms : ∀ p ∈ Speck.all, Spec.Speck.ofParams p ∈ Spec.Speck.table ∧
+namespace BC.Speck
+open BC
+theorem C10.speck_all_compute_spec : ∀ p ∈ all, Spec.Speck.ofParams p ∈ Spec.Speck.table ∧
     ∀ key b : Bytes,
-    Speck.encryptBlock p (Speck.keySchedule p key) b
+    encryptBlock p (keySchedule p key) b
       = Spec.Speck.encryptBytes p.n p.alpha p.beta p.rounds
           (fun j => (Spec.Speck.roundKeys p.n p.m p.alpha p.beta p.rounds key).getD j 0) b ∧
-    Speck.decryptBlock p (Speck.keySchedule p key) b
+    decryptBlock p (keySchedule p key) b
       = Spec.Speck.decryptBytes p.n p.alpha p.beta p.rounds
           (fun j => (Spec.Speck.roundKeys p.n p.m p.alpha p.beta p.rounds key).getD j 0) b :=
-  Speck.speck_all_compute_spec
+  _root_.BC.Speck.speck_all_compute_spec
+end BC.Speck
 
-example : Speck.all.length = 10 := by decide
+namespace BC.Threefish
+open BC.Spec.Threefish
+theorem C10.threefish256_eq_spec (K T P : Bytes) (hK : K.length = 32) (hT : T.length = 16) (hP : P.length = 32) :
+    encryptBlock (newWithTweak tf256 K T) P = encrypt threefish256 K T P :=
+  _root_.BC.Threefish.threefish256_eq_spec K T P hK hT hP
+end BC.Threefish
 
-end BC.Thm.C10
+namespace BC.Threefish
+open BC.Spec.Threefish
+theorem C10.threefish512_eq_spec (K T P : Bytes) (hK : K.length = 64) (hT : T.length = 16) (hP : P.length = 64) :
+    encryptBlock (newWithTweak tf512 K T) P = encrypt threefish512 K T P :=
+  _root_.BC.Threefish.threefish512_eq_spec K T P hK hT hP
+end BC.Threefish
+
+namespace BC.Threefish
+open BC.Spec.Threefish
+theorem C10.threefish1024_eq_spec (K T P : Bytes) (hK : K.length = 128) (hT : T.length = 16) (hP : P.length = 128) :
+    encryptBlock (newWithTweak tf1024 K T) P = encrypt threefish1024 K T P :=
+  _root_.BC.Threefish.threefish1024_eq_spec K T P hK hT hP
+end BC.Threefish
+
+namespace BC.Threefish
+open BC.Spec.Threefish
+/-- the plain keyed constructor is the specified cipher under the all-zero tweak -/
+theorem C10.threefish256_new_eq_spec (K P : Bytes) (hK : K.length = 32) (hP : P.length = 32) :
+    encryptBlock (new tf256 K) P = encrypt threefish256 K (List.replicate 16 0#8) P :=
+  _root_.BC.Threefish.threefish256_new_eq_spec K P hK hP
+end BC.Threefish
+
+namespace BC.Threefish
+open BC.Spec.Threefish
+theorem C10.threefish512_new_eq_spec (K P : Bytes) (hK : K.length = 64) (hP : P.length = 64) :
+    encryptBlock (new tf512 K) P = encrypt threefish512 K (List.replicate 16 0#8) P :=
+  _root_.BC.Threefish.threefish512_new_eq_spec K P hK hP
+end BC.Threefish
+
+namespace BC.Threefish
+open BC.Spec.Threefish
+theorem C10.threefish1024_new_eq_spec (K P : Bytes) (hK : K.length = 128) (hP : P.length = 128) :
+    encryptBlock (new tf1024 K) P = encrypt threefish1024 K (List.replicate 16 0#8) P :=
+  _root_.BC.Threefish.threefish1024_new_eq_spec K P hK hP
+end BC.Threefish
+
+namespace BC.Threefish
+open BC.Spec.Threefish
+/-- `decrypt_block` inverts the specified encryption -/
+theorem C10.threefish256_decrypt_spec (K T P : Bytes) (hK : K.length = 32) (hT : T.length = 16) (hP : P.length = 32) :
+    decryptBlock (newWithTweak tf256 K T) (encrypt threefish256 K T P) = P :=
+  _root_.BC.Threefish.threefish256_decrypt_spec K T P hK hT hP
+end BC.Threefish
+
+namespace BC.Threefish
+open BC.Spec.Threefish
+theorem C10.threefish512_decrypt_spec (K T P : Bytes) (hK : K.length = 64) (hT : T.length = 16) (hP : P.length = 64) :
+    decryptBlock (newWithTweak tf512 K T) (encrypt threefish512 K T P) = P :=
+  _root_.BC.Threefish.threefish512_decrypt_spec K T P hK hT hP
+end BC.Threefish
+
+namespace BC.Threefish
+open BC.Spec.Threefish
+theorem C10.threefish1024_decrypt_spec (K T P : Bytes) (hK : K.length = 128) (hT : T.length = 16) (hP : P.length = 128) :
+    decryptBlock (newWithTweak tf1024 K T) (encrypt threefish1024 K T P) = P :=
+  _root_.BC.Threefish.threefish1024_decrypt_spec K T P hK hT hP
+end BC.Threefish
+
+namespace BC.Threefish
+open BC.Spec.Threefish
+/-- the crate's `P256` is the inverse of π for N_w = 4 (and equal to it: an involution) -/
+theorem C10.perm256_inverse : ∀ i, i < 4 →
+    threefish256.π (tf256.permAt i) = i ∧ tf256.permAt (threefish256.π i) = i ∧ tf256.permAt i = threefish256.π i :=
+  _root_.BC.Threefish.perm256_inverse
+end BC.Threefish
+
+namespace BC.Threefish
+open BC.Spec.Threefish
+/-- the crate's `P512` is the inverse of π for N_w = 8 (and differs from π) -/
+theorem C10.perm512_inverse : ∀ i, i < 8 →
+    threefish512.π (tf512.permAt i) = i ∧ tf512.permAt (threefish512.π i) = i :=
+  _root_.BC.Threefish.perm512_inverse
+end BC.Threefish
+
+namespace BC.Threefish
+open BC.Spec.Threefish
+/-- the crate's `P1024` is the inverse of π for N_w = 16 -/
+theorem C10.perm1024_inverse : ∀ i, i < 16 →
+    threefish1024.π (tf1024.permAt i) = i ∧ tf1024.permAt (threefish1024.π i) = i :=
+  _root_.BC.Threefish.perm1024_inverse
+end BC.Threefish
+
+namespace BC.Threefish
+theorem C10.encryptBlock_storeWords {p : Params} (c : Cipher p) (b : Vector (BitVec 64) p.nw) :
+    encryptBlock c (storeWords b) = storeWords (encryptU64 c b) :=
+  _root_.BC.Threefish.encryptBlock_storeWords c b
+end BC.Threefish
+
+namespace BC.Threefish
+theorem C10.decryptBlock_storeWords {p : Params} (c : Cipher p) (b : Vector (BitVec 64) p.nw) :
+    decryptBlock c (storeWords b) = storeWords (decryptU64 c b) :=
+  _root_.BC.Threefish.decryptBlock_storeWords c b
+end BC.Threefish
+
+namespace BC.Threefish
+/-- `KeyInit::new key = new_with_tweak(key, [0; 16])`, i.e. tweak words `(0, 0)` -/
+theorem C10.new_eq_newWithTweak (p : Params) (key : Bytes) : new p key = newWithTweak p key (List.replicate 16 0#8) :=
+  _root_.BC.Threefish.new_eq_newWithTweak p key
+end BC.Threefish
